@@ -387,8 +387,12 @@ func (r *Recorder) ArrayEnd()       { r.Events = append(r.Events, Event{"]", nil
 func MatchEvents(n *ref.Node, evs []Event) []Mismatch {
 	var out []Mismatch
 	pos := 0
+	stop := false // enough mismatches collected: nothing is compared or consumed any more
 	var walk func(n *ref.Node, path string)
 	next := func(path string) (Event, bool) {
+		if stop {
+			return Event{}, false
+		}
 		if pos >= len(evs) {
 			out = append(out, Mismatch{path, "structure", nil, "event stream ended early"})
 			return Event{}, false
@@ -399,7 +403,9 @@ func MatchEvents(n *ref.Node, evs []Event) []Mismatch {
 	}
 	walk = func(n *ref.Node, path string) {
 		if len(out) > 8 {
-			return
+			// stopping here without stopping everything left the walk out of step with the
+			// events and produced spurious structure mismatches behind nine string mismatches
+			stop = true
 		}
 		e, ok := next(path)
 		if !ok {
@@ -468,7 +474,7 @@ func MatchEvents(n *ref.Node, evs []Event) []Mismatch {
 		}
 	}
 	walk(n, "$")
-	if pos != len(evs) && len(out) == 0 {
+	if pos != len(evs) && len(out) == 0 && !stop {
 		out = append(out, Mismatch{"$", "structure", nil, fmt.Sprintf("%d extra events", len(evs)-pos)})
 	}
 	return out
